@@ -222,8 +222,8 @@ def run(ctx):
         "hed.validator.util.group_util", "hed.validator.def_validator", "hed.validator.onset_validator",
         "hed.validator.hed_validator", "hed.validator.util.tag_util", "hed.validator.util.class_util")]
     nl = check_no_stale_state(ctx, "R4.4", sib, {
-        ("GroupValidator._check_for_duplicate_groups_recursive", "prev_child"):
-            "adjacent-equality scan over the canonically sorted view (R4.1 makes the order canonical)"},
+        "GroupValidator._check_for_duplicate_groups_recursive":
+            (1, "`prev_child`: adjacent-equality scan over the canonically sorted view (R4.1 makes the order canonical)")},
         "The verdict for one tag or group then depends on which siblings were visited before it, i.e. on sibling order.")
     ctx.floor("R4.4", "loops in the validator modules", nl, 20)
     ctx.rule("R4.3", "the delimiter scan decides on the blank-stripped form of the accumulated text")
